@@ -35,3 +35,13 @@ def classify(prop, v):
         except Exception:
             continue
     return None
+
+
+# ------------------------------------------------------------------ predicates
+@predicate
+def c20_numpy_repr_parfiles(v):
+    r = v['record']
+    return (r.get('clause', '').startswith('parfiles:file written from numpy-valued records')
+            and r.get('numpy_input') is True and r.get('error') == 'NameError'
+            and "'np'" in r.get('message', '')
+            and (r.get('xstyle') == 'array' or r.get('ystyle') == 'npfloat'))
